@@ -40,6 +40,16 @@ def check_model(case, stats):
     if res[1] != r.ast:
         raise Violation(case, "AST differs from the document the text was rendered from, %s\n--- text:\n%s" % (
             diff_text(res[1], r.ast, "parser", "model"), r.text))
+    # the other ways in: stop-at-first-error mode, and a TokenScanner object instead of the text
+    res2 = gh.parse(r.text, doc["default"], stop=True)
+    if res2[0] != "ok" or res2[1] != r.ast:
+        raise Violation(case, "in stop-at-first-error mode the well-formed document %s\n--- text:\n%s" % (
+            "is rejected: %r" % (res2[1][:2],) if res2[0] != "ok" else "gives another AST, " + diff_text(res2[1], r.ast, "parser", "model"), r.text))
+    if not gh.names_existing_path(r.text):
+        res3 = gh.parse(gh.TokenScanner(r.text), doc["default"])
+        if res3[0] != "ok" or res3[1] != r.ast:
+            raise Violation(case, "given a TokenScanner object instead of the text the document %s\n--- text:\n%s" % (
+                "is rejected: %r" % (res3[1][:2],) if res3[0] != "ok" else "gives another AST, " + diff_text(res3[1], r.ast, "parser", "model"), r.text))
 
 
 def unit_model(a):
